@@ -190,9 +190,39 @@ def c16_plan(run, replay=None):
          "token pools in harness/internal/rt/pools.go; TLC, Json module"], exhaustive=True)
 
 
+# ------------------------------------------------------------------------------------------ NYCT alerts
+def c17_plan(run, replay=None):
+    q = run.tier == "quick"
+    run.build_harness()
+    if replay:
+        replay_cases(run, replay, "cases.ndjson")
+    else:
+        run.tlc("NyctAlertsMC", "C17_elevators.cfg" if q else "C17_elevators_thorough.cfg", "design", workers=8, cases_out="cases.ndjson", timeout=1500)
+        run.tlc("NyctAlertsMC", "C17_elev3.cfg", "design", workers=8, cases_out="cases.ndjson")
+        run.tlc("NyctAlertsMC", "C17_others.cfg", "design", workers=8, cases_out="cases.ndjson")
+        run.tlc("NyctAlertsMC", "C17_mixed.cfg", "design", workers=8, cases_out="cases.ndjson")
+        run.tlc("RealtimeMC", "RT_alerts_quick.cfg", "design", workers=8, cases_out="cases.ndjson")
+        run.tlc("RealtimeMC", "RT_fields.cfg", "design", workers=8, cases_out="cases.ndjson")
+    s = run.harness("nyctalerts", ["-in", "cases.ndjson", "-out", "obs.ndjson"], timeout=3000)
+    run.load_inputs("obs.ndjson.inputs")
+    run.validate_trace("NyctAlertsObs", "obs.ndjson", s["cases"], timeout=3000)
+    only(run, ["C17."])
+    if not replay:
+        run.floor("messages", run.counters.get("messages", 0), 5000)
+        run.floor("messages_with_2plus_elevator_alerts", run.counters.get("messages_with_2plus_elevator_alerts", 0), 1000)
+    run.counters["distinct_nontrivial"] = run.counters.get("messages", 0)
+    return run.finish(
+        "alert feeds: every sequence (so every order) of <= 2 (quick) / 3 (thorough) elevator alerts over 2 stations x 2 "
+        "platforms x 2 elevators, single Mercury alerts of every priority 1-41 x id prefix x Mercury data, mixed feeds, "
+        "each x the 24 option combinations; plain alert messages for pass-through",
+        ["elevator ids are well formed (3-character station, optional N/S, '#EL', elevator)",
+         "token pools in harness/internal/rt/pools.go; TLC, Json module"], exhaustive=True)
+
+
 ZONES = "nil,UTC,America/New_York,Asia/Kolkata,fixed+0545,Pacific/Auckland,fixed-0330"
 
 PLANS = {
+    "C17": c17_plan,
     "C16": c16_plan,
     "C02": realtime_plan("C02", [("RT_fields.cfg", "RT_fields.cfg", ZONES, 1),
                                  (("RT_random.cfg", 1500), ("RT_random.cfg", 30000), ZONES, 1),
